@@ -53,6 +53,8 @@ UNITS = [
          bound="command name followed by 2 items, every ledger of those 2; inner parser = a probe that records its scope and claims everything"),
     dict(unit="K12.adjacent_command_scope", harness="k12_adjacent_command_scope", tags=["C19", "C08", "C05"], quick=False, complete=False,
          bound="adjacent command name followed by 2 items, every ledger of those 2; success on the first attempt only"),
+    dict(unit="K13.peek_front_ty_group_of_three", harness="k13_peek_front_ty_group_of_three", tags=["C12"], quick=True, complete=False,
+         bound="And/Or group of 3 children, each of {Skip, Optional(Skip), a flag, a positional}"),
     dict(unit="K14.first_line_two_tokens", harness="k14_first_line_two_tokens", tags=["C12", "C04"], quick=False, complete=False,
          bound="two Text tokens over 2+2 ASCII bytes"),
     dict(unit="K14.first_line_three_tokens", harness="k14_first_line_three_tokens", tags=["C12", "C04"], quick=False, complete=False,
@@ -186,7 +188,7 @@ def _slug(s):
 
 
 MODULE_OF = {"k01": "args_inner", "k02": "args", "k03": "arg", "k04": "args", "k05": "complete_shell", "k08": "escape",
-             "k09": "html", "k10": "params", "k12": "params", "k14": "buffer"}
+             "k09": "html", "k10": "params", "k12": "params", "k13": "meta_help", "k14": "buffer"}
 
 
 def replay(repo, rp, work):
